@@ -160,7 +160,7 @@ func (st *PrefixStorage) Delete(key []byte, opt *leveldbOpt.WriteOptions) error 
 }
 
 func (st *PrefixStorage) NewBatch() *PrefixStorageBatch {
-	return newPrefixStorageBatch(st.prefix)
+	return newPrefixStorageBatch(st.Prefix())
 }
 
 func (st *PrefixStorage) Batch(batch *PrefixStorageBatch, opt *leveldbOpt.WriteOptions) error {
@@ -180,9 +180,30 @@ func (st *PrefixStorage) BatchFunc(
 	func(func(func() error) error) error,
 	func(),
 ) {
-	return st.Storage.BatchFuncWithNewBatch(ctx, batchsize, wo, func() LeveldbBatch {
+	add, done, cancel := st.Storage.BatchFuncWithNewBatch(ctx, batchsize, wo, func() LeveldbBatch {
 		return st.NewBatch()
 	})
+
+	// NOTE the batch of closed storage has nil prefix; it covers all the prefixes
+	return func(put func(LeveldbBatch), doBatch func(func() error) error) error {
+			if st.Prefix() == nil {
+				cancel()
+
+				return storage.ErrClosed.WithStack()
+			}
+
+			return add(put, doBatch)
+		},
+		func(doBatch func(func() error) error) error {
+			if st.Prefix() == nil {
+				cancel()
+
+				return storage.ErrClosed.WithStack()
+			}
+
+			return done(doBatch)
+		},
+		cancel
 }
 
 func (st *PrefixStorage) key(b []byte) []byte {
